@@ -43,6 +43,8 @@ type Exec struct {
 	wantWitness func() bool
 	witness     []VecEntry
 	witReq      bool
+	flagCells   map[string]*Value // command-line flags registered by the CLI package's initialiser
+	cliCmd      string
 	P    *Program
 	sol  *Solver
 	mode Mode
